@@ -39,7 +39,7 @@ def corpus():
 
 
 def gen_cases(tier):
-    n = 24 if tier == 'quick' else 150
+    n = 24 if tier == 'quick' else 80
     cases = []
     for c in corpus():
         c = dict(c)
